@@ -30,7 +30,7 @@ package search
 // Next() was "no more samples".
 //@ ghostdecl mbwExhausted int
 //@ func blockWorker
-//@   props C09
+//@   props C09 C08
 //@   assumecalleerequires
 //@   ghostinit ghost(0, "mbwExhausted") == 0
 //@   site callret tsitr.Next #1:
